@@ -41,10 +41,23 @@ def _b():
 
 
 def _f(x):
-    return enc(float(x))
+    """enc(float(x)) without the detour through Fraction (same encoding: int or 'p/q' in lowest terms)"""
+    x = float(x)
+    if x != x or x in (float("inf"), float("-inf")):
+        return enc(x)
+    p, q = x.as_integer_ratio()
+    return p if q == 1 else "%d/%d" % (p, q)
 
 
 def _fl(j):
+    """float(dec(j)) without the detour through Fraction: int / int is correctly rounded (exact for the
+    binary values the transport carries)"""
+    if type(j) is str:
+        p, sep, q = j.partition("/")
+        if sep:
+            return int(p) / int(q)
+    elif type(j) is int:
+        return float(j)
     v = dec(j)
     return v if isinstance(v, float) else float(v)
 
